@@ -61,7 +61,7 @@ let join_or_dash l = if l = [] then "-" else String.concat "," l
 
 let show_state (st : M.mstate) : string =
   let part (p : M.pobs) = hex_of_bytes p.M.p_ct ^ ":" ^ hex_of_bytes p.M.p_cs ^ ":" ^ hex_of_bytes p.M.p_enc in
-  let file (f : M.fobs) = hex_of_bytes f.M.f_name ^ ":" ^ hex_of_bytes f.M.f_cid in
+  let file (f : M.fobs) = hex_of_bytes f.M.fo_name ^ ":" ^ hex_of_bytes f.M.fo_cid in
   let gen = List.sort compare (List.map (fun (k, _) -> hex_of_bytes k) st.M.m_gen) in
   Printf.sprintf "ok cs=%s enc=%s parts=%s att=%s emb=%s gen=%s"
     (hex_of_bytes st.M.m_charset) (hex_of_bytes st.M.m_enc)
@@ -103,8 +103,10 @@ let run (toks : string list) : string =
        | M.Err -> "err"
        | M.Panic -> "panic")
   | ["fname"; name] ->
-      (* C10: what the parser recovers from the Content-Disposition the writer emits for this name *)
-      (match M.roundtrip_filename (bytes_of_hex name) with
+      (* C10 tier B: Writer.file_hdrs (sanitize, word encoder Q = 113, header cache of a fresh file)
+         -> Content-Disposition -> parser; the Content-Type guess is irrelevant to the name *)
+      let f = M.fresh_file (bytes_of_hex name) (bytes_of_hex "6170706c69636174696f6e2f6f637465742d73747265616d") in
+      (match M.filename_via_writer (n_of_int 113) true f with
        | M.Ok f -> "ok " ^ hex_of_bytes f
        | M.Err -> "err"
        | M.Panic -> "panic")
